@@ -474,6 +474,14 @@ func (conn *Conn) postConnect(ctx context.Context, start bool) {
 			conn.wg.Add(1)
 			go conn.ping(ctx)
 		}
+		// send and runLoop can both be blocked (in a socket write to a
+		// peer that has stopped reading, and behind a handler waiting for
+		// the full output queue) when ctx is cancelled, so neither sees it.
+		// Close() cancels ctx too; this is then a no-op.
+		go func(gen uint64) {
+			<-ctx.Done()
+			conn.closeGen(gen)
+		}(conn.gen)
 	}
 }
 
